@@ -219,7 +219,17 @@ def _with(cls, attrs, base=None, consistent=False):
     if base is not None and consistent:
         # boundary obligations (must be accepted): generated surrounding content was consistent with the class's hand-written constraints before `attrs` were
         # added; make it so again (only ever adds what such a constraint asks for)
-        M._apply_fixers_deterministic(d)
+        if cls.__name__ == "SONRQ":
+            # user id + password and user key exclude each other (hand-written rule): the element under test stays
+            if any(a in ("userid", "userpass") for a in attrs):
+                d["kw"].pop("userkey", None)
+                for a in ("userid", "userpass"):
+                    d["kw"].setdefault(a, M.minimal_scalar(types[a][1]))
+            elif "userkey" in attrs:
+                d["kw"].pop("userid", None)
+                d["kw"].pop("userpass", None)
+        else:
+            M._apply_fixers_deterministic(d)
     return d
 
 
